@@ -179,6 +179,13 @@ class HelpersMachine(Machine):
                     # a row that cannot be a row at all (not iterable): must be refused whole
                     return {"op": rng.choice(["append", "setitem"]), "key": rng.choice(keys),
                             "values": 5, "malformed": True}
+                if rng.random() < c["p_fail"] * 0.5:
+                    # the row is handed over as a lazy iterable whose source fails part-way
+                    # (a reader hitting a bad field): refused whole, earlier record intact
+                    return {"op": rng.choice(["append", "setitem"]),
+                            "key": rng.choice(present + keys) if present else rng.choice(keys),
+                            "values": self._values(rng),
+                            "fail_after": rng.randint(0, len(self.fields))}
                 if r < 0.3 or n == 0:
                     return {"op": "append", "key": rng.choice(keys), "values": self._values(rng)}
                 if r < 0.45:
@@ -196,6 +203,9 @@ class HelpersMachine(Machine):
                     k = rng.choice(keys) if rng.random() < c["p_fail"] else rng.choice(present)
                     return {"op": "get_attr", "key": k}
                 return {"op": "contains", "key": rng.choice(keys)}
+            if rng.random() < c["p_fail"] * 0.4:
+                return {"op": "append_row", "values": self._values(rng),
+                        "fail_after": rng.randint(0, len(self.fields))}
             if r < 0.45 or n == 0:
                 return {"op": "append_row", "values": self._values(rng)}
             if r < 0.65:
@@ -213,6 +223,22 @@ class HelpersMachine(Machine):
                 return {"op": "append_short", "row": row[:k]}           # too few values
             lacking = {self.cols[i]: row[i] for i in range(len(self.cols)) if i != k}
             return {"op": "append_lacking", "row": lacking}             # a column is missing
+        if self.cols_known and n and rng.random() < c["p_fail"] * 0.5:
+            q = rng.random()
+            if q < 0.35:
+                return {"op": "sort_unknown", "col": rng.choice(["nocol", "", "_columns2"]),
+                        "reverse": rng.random() < 0.4}
+            if q < 0.6 and "int_none" in self.types:
+                # a column holding None among numbers cannot be ordered
+                return {"op": "sort_any", "col": self.cols[self.types.index("int_none")],
+                        "reverse": rng.random() < 0.4}
+            if self.array:
+                numeric = [i for i, t in enumerate(self.types) if t in ("int", "float", "default")]
+                if numeric:
+                    bad = list(row)
+                    bad[rng.choice(numeric)] = rng.choice(["abc", "1,5", "0x"])
+                    return {"op": "append_uncastable", "row": bad,
+                            "as_dict": rng.random() < 0.4}
         if r < 0.35 or n == 0:
             if not self.cols_known:
                 return {"op": "append_dict", "row": dict(zip(self.cols, row)), "extra": None}
@@ -308,6 +334,22 @@ class HelpersMachine(Machine):
                     else:
                         t[op["key"]] = op["values"]
                 return self._expect(k + "_malformed", f, True)
+            if k in ("append", "setitem") and "fail_after" in op:
+                vals = op["values"][:len(self.fields)]
+                if len(vals) < len(self.fields):
+                    return "skip", None
+                fails = op["fail_after"] < len(self.fields)
+                lazy = _lazy_row(vals, op["fail_after"])
+
+                def f():
+                    if k == "append":
+                        t.append(op["key"], lazy)
+                    else:
+                        t[op["key"]] = lazy
+                r = self._expect(k + "_lazy", f, fails)
+                if not fails:
+                    m[op["key"]] = self._record(vals)
+                return r
             if k in ("append", "setitem"):
                 vals = op["values"][:len(self.fields)]
                 if len(vals) < len(self.fields):
@@ -352,6 +394,16 @@ class HelpersMachine(Machine):
                                     lambda got: bool(got) == want)
             return "skip", None
         # list mode
+        if k == "append_row" and "fail_after" in op:
+            vals = op["values"][:len(self.fields)]
+            if len(vals) < len(self.fields):
+                return "skip", None
+            fails = op["fail_after"] < len(self.fields)
+            lazy = _lazy_row(vals, op["fail_after"])
+            r = self._expect(k + "_lazy", lambda: t.append(lazy), fails)
+            if not fails:
+                m.append(self._record(vals))
+            return r
         if k == "append_row":
             vals = op["values"][:len(self.fields)]
             if len(vals) < len(self.fields):
@@ -511,6 +563,64 @@ class HelpersMachine(Machine):
                 return "raised:" + type(e).__name__, None
             raise Violation("malformed_row_accepted", {"op": k, "row": row},
                             signature=f"C20/rows/{k}/missing_error")
+        if k == "sort_unknown":
+            if not self.cols_known or op["col"] in self.cols:
+                return "skip", None
+            try:
+                rc.sort(op["col"], reverse=bool(op["reverse"]))
+            except Exception as e:
+                # refused: the rows must be as before (compared with the model after this step)
+                self.failed_ops += 1
+                self.stats.fault("failing_sort_unknown_column", True)
+                return "raised:" + type(e).__name__, None
+            raise Violation("sort_by_unknown_column_accepted", {"col": op["col"]},
+                            signature="C20/rows/sort_unknown/missing_error")
+        if k == "sort_any":
+            if not self.cols_known or op["col"] not in self.cols:
+                return "skip", None
+            before = [list(r) for r in self.rows]
+            try:
+                rc.sort(op["col"], reverse=bool(op["reverse"]))
+            except Exception as e:
+                self.failed_ops += 1
+                self.stats.fault("failing_sort_unorderable", True)
+                return "raised:" + type(e).__name__, None
+            got = self._read_rows("sort_any")
+            if not self._same_multiset(got, before):
+                raise Violation("sort_changed_the_multiset_of_rows",
+                                {"col": op["col"], "before": repr(before)[:400],
+                                 "after": repr(got)[:400]},
+                                signature="C20/rows/sort/multiset")
+            ci = self.cols.index(op["col"])
+            keys = [r[ci] for r in got]
+            if all(x is not None for x in keys):
+                for x, y in zip(keys, keys[1:]):
+                    if not ((x >= y) if op["reverse"] else (x <= y)):
+                        raise Violation("sort_column_not_monotone",
+                                        {"col": op["col"], "reverse": op["reverse"],
+                                         "column": repr(keys)[:300]},
+                                        signature=f"C20/rows/sort/order/reverse={bool(op['reverse'])}")
+            self.rows = got
+            return "ok", len(got)
+        if k == "append_uncastable":
+            if not self.cols_known or not self.array or len(op["row"]) != len(self.cols):
+                return "skip", None
+            row = op["row"]
+            try:
+                rc.append(dict(zip(self.cols, row)) if op.get("as_dict") else list(row))
+            except Exception as e:
+                # refused: no column may have taken its cell of the refused row
+                self.failed_ops += 1
+                self.stats.fault("failing_append_uncastable", True)
+                return "raised:" + type(e).__name__, None
+            # accepted: then the row must have been stored in every column
+            got = self._read_rows("append_uncastable")
+            if len(got) != len(self.rows) + 1:
+                raise Violation("rows_differ_from_model",
+                                {"after": k, "got": repr(got)[:400], "want_len": len(self.rows) + 1},
+                                signature="C20/rows/array/append_uncastable")
+            self.rows = got
+            return "stored", None
         if k == "sort":
             if op["col"] not in self.cols or not self.cols_known:
                 return "skip", None
@@ -627,6 +737,21 @@ class HelpersMachine(Machine):
         return {"real": ["scinumtools.ParameterTable", "ParameterSettings", "scinumtools.RowCollector",
                          "scinumtools.DataPlotGrid", "scinumtools.DataCombination", "NumPy argsort"],
                 "stub": []}
+
+
+class InjectedRowFault(Exception):
+    pass
+
+
+def _lazy_row(values, fail_after):
+    """A generator handing out `fail_after` cells and then failing, like a reader that meets a
+    bad field half-way through a record."""
+    def gen():
+        for i, v in enumerate(values):
+            if i >= fail_after:
+                raise InjectedRowFault("source of the row failed after %d cells" % fail_after)
+            yield v
+    return gen()
 
 
 # ------------------------------------------------------------------------------ pure clauses
